@@ -310,7 +310,18 @@ fn _parse(input: &mut &str) -> PResult<(RunOptions, Exp)> {
             multispace0,
             repeat(
                 0..,
-                terminated(terminated(GlobalOption::parse, word_end), multispace0),
+                terminated(
+                    terminated(GlobalOption::parse, word_end),
+                    // The options are implicitly and-ed with what follows: accept that `and`
+                    // written out, provided something does follow
+                    (
+                        multispace0,
+                        winnow::combinator::opt(terminated(
+                            alt(("-and", "-a")),
+                            (multispace1, peek(any)),
+                        )),
+                    ),
+                ),
             ),
         ),
         input,
